@@ -14,12 +14,14 @@ import (
 	"github.com/aergoio/aergo/v2/zz_verif/vh"
 )
 
-// class ids of the known-finding candidates (DESIGN §5 lead 7 and its fork-choice face)
-const (
-	knownC05Root   = "C05-reorg-rollforward-fails-root-not-restored"
-	knownC07Stale  = "C07-failed-reorg-leaves-fork-state"
-	knownC07Prefix = "C07-valid-prefix-of-failed-reorg-not-adopted"
-)
+// class id of the known finding (known_findings.json): a reorganisation whose top is an invalid block reached through
+// orphan resolution fails as a whole; the valid, longer prefix below the invalid block is not adopted and the arriving
+// (valid) block is put into the errored-blocks cache.
+const knownC07Prefix = "C07-valid-prefix-under-invalid-orphan-not-adopted"
+
+// class id of the candidate finding: a block with header number 0 whose parent is the best block is connected as the
+// new best block at height 0 (ChainDB.isMainChain lets number 0 through; nothing checks number = parent's + 1).
+const knownC05Zero = "C05-block-number-zero-child-of-best"
 
 type scenario struct {
 	name      string
@@ -56,6 +58,9 @@ type session struct {
 	byContent map[string]*mblock // proto bytes -> block
 	rootStale bool               // a failed roll-forward left the state root away from the best block's root
 	reorgFail bool               // some arrival of this session ended in a reorg error
+	anyErr    bool               // some arrival of this session ended in an error (other than "cached")
+	offered   map[*mblock]bool   // blocks offered so far
+	forged0   bool               // a block with number 0 other than genesis became the best block
 	failed    map[string]bool    // one report per (clause) per session
 	libNow    uint64
 }
@@ -72,7 +77,7 @@ func (s *session) replay() interface{} {
 		if b.parent != nil {
 			par = b.parent.name
 		}
-		names = append(names, fmt.Sprintf("%s=%s(parent %s, no %d, %s, %d txs)", b.name, b.id(), par, b.no, kindName[b.kind], len(b.blk.GetBody().GetTxs())))
+		names = append(names, fmt.Sprintf("%s=%s(parent %s, no %d, %s, %d txs)", b.name, b.id(), par, b.no, b.kind.String(), len(b.blk.GetBody().GetTxs())))
 	}
 	arr := []string{}
 	for _, a := range s.sc.arrivals {
@@ -87,6 +92,10 @@ func (s *session) replay() interface{} {
 func (s *session) fail(clause, what, known string) {
 	if s.failed[clause] {
 		return
+	}
+	if s.forged0 && known == "" && (strings.HasPrefix(clause, "clause1") || strings.HasPrefix(clause, "clause2") || clause == "valid-child-of-best" || clause == "invalid-block-on-main-chain") {
+		known = knownC05Zero
+		what += " [after a block with header number 0 whose parent was the best block was connected as best block]"
 	}
 	s.failed[clause] = true
 	s.e.run.Count("oracle:" + clause + ":violated")
@@ -108,7 +117,7 @@ func (e *env) runScenario(sc *scenario) {
 	if sc.badCap == 0 {
 		sc.badCap = 128
 	}
-	s := &session{e: e, sc: sc, byContent: map[string]*mblock{}, failed: map[string]bool{}}
+	s := &session{e: e, sc: sc, byContent: map[string]*mblock{}, failed: map[string]bool{}, offered: map[*mblock]bool{}}
 	s.n = e.w.newNode(sc.orphanCap, sc.badCap)
 	defer s.n.close()
 	g := e.p.gen
@@ -153,10 +162,14 @@ func (e *env) runScenario(sc *scenario) {
 		cls, msgs := s.n.add(b.blk)
 		s.op(b.opLine, cls+" "+msgs, cls == "ok")
 		s.e.run.Count("add:" + cls)
-		s.e.run.Count("kind:" + kindName[b.kind])
+		s.e.run.Count("kind:" + b.kind.String())
 		if cls == "reorg" {
 			s.reorgFail = true
 		}
+		if cls == "reorg" || cls == "err" {
+			s.anyErr = true
+		}
+		s.offered[b] = true
 		obs, pan := vh.Guard(func() string { return s.observe() })
 		if pan {
 			s.fail("query", "a query panicked after the arrival: "+obs, "")
@@ -170,16 +183,23 @@ func (e *env) runScenario(sc *scenario) {
 		} else {
 			s.rootStale = false
 		}
+		if last := after.path[len(after.path)-1]; last.BlockNo() == 0 && !bytes.Equal(last.BlockHash(), g.hash) && !s.forged0 {
+			s.forged0 = true
+			s.e.run.Count("effect:number-0-block-connected-to-main-chain")
+		}
 		s.classify(before, after, b, cls)
 		if _, pan := vh.Guard(func() string { s.oracleC05(after); return "" }); pan {
 			s.fail("query", "the consistency oracle's queries panicked", "")
+		}
+		if s.forged0 && s.e.prop == "C07" {
+			continue // the chain index is corrupt from here on; that is C05's finding, fork choice is not judged on it
 		}
 		if s.e.prop == "C07" {
 			s.oracleC07(before, after, b, cls)
 		}
 		s.oracleArrival(before, after, b, cls)
 	}
-	if s.e.prop == "C07" {
+	if s.e.prop == "C07" && !s.forged0 {
 		s.referenceCheck("end of session")
 	}
 }
@@ -381,9 +401,6 @@ func (s *session) oracleC05(sn *snap) {
 	// (5) the current state root is the best block's state root
 	if !bytes.Equal(sn.root, sn.best.GetHeader().GetBlocksRootHash()) {
 		known := ""
-		if s.rootStale {
-			known = knownC05Root
-		}
 		s.fail("clause5-root", fmt.Sprintf("state DB root %s != state root %s of the best block %s/%d", tk(sn.root), tk(sn.best.GetHeader().GetBlocksRootHash()),
 			tk(sn.best.BlockHash()), sn.best.BlockNo()), known)
 	} else {
@@ -517,6 +534,17 @@ func (s *session) classify(before, after *snap, b *mblock, cls string) {
 // oracleArrival (both properties; the lead-5 history is an instance): a valid block whose parent is the current best
 // block must be accepted and become (an ancestor of) the best block.
 func (s *session) oracleArrival(before, after *snap, b *mblock, cls string) {
+	// no block that is not valid (execution fails, wrong claimed root, refused by the consensus, wrong number, altered copy)
+	// may become part of the main chain
+	for _, nb := range after.path {
+		if before.onMain[string(nb.BlockHash())] != nil {
+			break
+		}
+		raw, _ := proto.Encode(nb)
+		if m := s.byContent[string(raw)]; m != nil && !m.valid {
+			s.fail("invalid-block-on-main-chain", fmt.Sprintf("block %s (%s, kind %s; not valid itself or by ancestry) is on the main chain at height %d", m.name, m.id(), m.kind, nb.BlockNo()), "")
+		}
+	}
 	if !b.valid || b.altered || b.parent == nil || !bytes.Equal(b.parent.hash, before.best.BlockHash()) {
 		return
 	}
